@@ -838,10 +838,10 @@ def check(ctx):
     ctx.rule("R19.2", "Diagram.__call__ is the functor into Functions on the boxes' own functions; Box.__call__ is Diagram.__call__")
     ctx.rule("R19.3", "generating boxes and Swap / Copy / Discard evaluated on wire labels by the reference interpreter")
     ctx.rule("R19.4", "the functor wiring (each box applied at its offset between identities) is the one decided by C04")
-    check_function_algebra(ctx)
-    check_call(ctx)
-    check_disco(ctx)
-    check_structural(ctx)
+    ctx.attempt(check_function_algebra, ctx)
+    ctx.attempt(check_call, ctx)
+    ctx.attempt(check_disco, ctx)
+    ctx.attempt(check_structural, ctx)
     from ..core import Ctx
     from . import c04
     sub = Ctx("C04", ctx.model, ctx.tier)
